@@ -256,6 +256,75 @@ func c16Subset(r *vh.Rand, n int) []int {
 	return out
 }
 
+// construction: bases and chains / fans of Options derived from them one designation at a time
+// (so that the paths slices pass through every small capacity), siblings derived from the
+// same base, and derivations from an Option that already has siblings.
+func (s *c16GenState) construction() []c16BuildOp {
+	r := s.r
+	var ops []c16BuildOp
+	nb := r.Range(1, 2)
+	for i := 0; i < nb; i++ {
+		b := c16BuildOp{Op: "base", Vals: []int{}, Handlers: []int{}, Paths: [][]string{}}
+		if r.Chance(70) {
+			b.Ty = r.Range(c16TyA, c16TyR)
+			if t := s.pickTarget(func(t *c16Target) bool { return t.kind == "comp" && t.ty != c16TyNone }); t != nil && r.Chance(85) {
+				b.Ty = t.ty
+			}
+			b.Vals = s.vals()
+		} else {
+			b.Handlers = s.handlers()
+		}
+		ops = append(ops, b)
+	}
+	tyOf := func(i int) (int, bool) { // option type and "carries values" of built option i
+		for ops[i].Op == "designate" {
+			i = ops[i].Src
+		}
+		return ops[i].Ty, len(ops[i].Vals) > 0
+	}
+	nd := r.Range(3, 9)
+	last := r.Intn(nb)
+	for k := 0; k < nd; k++ {
+		src := last
+		switch w := r.Intn(100); {
+		case w < 50: // extend the chain
+		case w < 80 && len(ops) > nb: // a sibling: derive again from the source of the last derivation
+			src = ops[len(ops)-1].Src
+		default:
+			src = r.Intn(len(ops))
+		}
+		ty, hasVals := tyOf(src)
+		d := c16BuildOp{Op: "designate", Src: src, Vals: []int{}, Handlers: []int{}, Paths: [][]string{}, ViaKey: r.Chance(50)}
+		np := 1
+		if r.Chance(20) {
+			np = 2
+		}
+		for j := 0; j < np; j++ {
+			if r.Chance(5) {
+				d.Paths = append(d.Paths, s.badPath([]string{"unknown", "belowComp", "belowPass"}[r.Intn(3)]))
+				continue
+			}
+			t := s.pickTarget(func(t *c16Target) bool {
+				switch t.kind {
+				case "comp":
+					return !hasVals || t.ty == ty
+				case "pass":
+					return r.Chance(25)
+				}
+				return true
+			})
+			if t != nil {
+				d.Paths = append(d.Paths, c16Cp(t.path))
+			}
+		}
+		ops = append(ops, d)
+		if src == last || r.Chance(50) {
+			last = len(ops) - 1
+		}
+	}
+	return ops
+}
+
 func c16Gen(r *vh.Rand) *c16Case {
 	maxDepth := []int{1, 2, 2, 3, 3}[r.Intn(5)]
 	g := c16GenTree(r, 1, maxDepth)
@@ -266,8 +335,15 @@ func c16Gen(r *vh.Rand) *c16Case {
 	if r.Chance(4) {
 		nopts = 0
 	}
-	for i := 0; i < nopts; i++ {
-		c.Store = append(c.Store, s.option())
+	construct := r.Chance(15)
+	if construct {
+		c.Build = s.construction()
+		c16SyncStore(c)
+		nopts = len(c.Store)
+	} else {
+		for i := 0; i < nopts; i++ {
+			c.Store = append(c.Store, s.option())
+		}
 	}
 	paradigm := func() string {
 		if r.Chance(30) {
@@ -282,6 +358,18 @@ func c16Gen(r *vh.Rand) *c16Case {
 	}
 	if nopts > 0 && r.Chance(5) {
 		all = append(all, r.Intn(nopts)) // the same Option value passed twice
+	}
+	if construct {
+		// pass a few of the constructed Options (typically siblings), not all of them
+		all = []int{}
+		for i := range c.Build {
+			if c.Build[i].Op == "designate" && r.Chance(45) {
+				all = append(all, i)
+			}
+		}
+		if len(all) == 0 {
+			all = []int{len(c.Build) - 1}
+		}
 	}
 	w := r.Intn(100)
 	switch {
@@ -313,6 +401,9 @@ func c16Gen(r *vh.Rand) *c16Case {
 			}
 			c.Calls = append(c.Calls, c16Call{G: g, Ixs: ixs, Paradigm: paradigm(), Dag: dag})
 		}
+	}
+	if construct {
+		c.Kind = "construction/" + c.Kind
 	}
 	return c
 }
@@ -379,7 +470,19 @@ func c16Corpus() []*c16Case {
 		}
 		return c
 	}
-	return append(cs, mk("conc"), mk("seq"))
+	// Options derived from one base: base = a,b,c one designation at a time (paths has spare
+	// capacity then), o1 = base+d, o2 = base+e; o1 must still designate d.
+	flat := []c16Node{lam("a", c16TyA), lam("b", c16TyA), lam("c", c16TyA), lam("d", c16TyA), lam("e", c16TyA)}
+	des := func(src int, viaKey bool, paths ...[]string) c16BuildOp {
+		return c16BuildOp{Op: "designate", Src: src, Vals: []int{}, Handlers: []int{}, Paths: paths, ViaKey: viaKey}
+	}
+	derived := &c16Case{Mode: "seq", Kind: "corpus:derived-siblings",
+		Build: []c16BuildOp{{Op: "base", Ty: c16TyA, Vals: []int{1}, Handlers: []int{}, Paths: [][]string{}},
+			des(0, true, []string{"a"}), des(1, true, []string{"b"}), des(2, true, []string{"c"}),
+			des(3, true, []string{"d"}), des(3, false, []string{"e"})},
+		Calls: []c16Call{{G: flat, Ixs: []int{4}, Paradigm: "invoke"}, {G: flat, Ixs: []int{5}, Paradigm: "invoke"}}}
+	c16SyncStore(derived)
+	return append(cs, mk("conc"), mk("seq"), derived)
 }
 
 // ---------------------------------------------------------------------------------------
@@ -392,6 +495,17 @@ func c16Clone(c *c16Case) *c16Case {
 	json.Unmarshal(b, &d)
 	if d.Store == nil {
 		d.Store = []c16Opt{}
+	}
+	for i := range d.Build {
+		if d.Build[i].Vals == nil {
+			d.Build[i].Vals = []int{}
+		}
+		if d.Build[i].Handlers == nil {
+			d.Build[i].Handlers = []int{}
+		}
+		if d.Build[i].Paths == nil {
+			d.Build[i].Paths = [][]string{}
+		}
 	}
 	for i := range d.Store {
 		if d.Store[i].Vals == nil {
@@ -486,8 +600,43 @@ func c16Shrink(ctx *vh.Ctx, c *c16Case, sig string) *c16Case {
 				}
 			}
 		}
+		// drop a construction step nothing else derives from
+		for i := len(cur.Build) - 1; i >= 0 && len(cur.Build) > 1; i-- {
+			used := false
+			for j := range cur.Build {
+				if cur.Build[j].Op == "designate" && cur.Build[j].Src == i {
+					used = true
+				}
+			}
+			if used {
+				continue
+			}
+			cand := c16Clone(cur)
+			cand.Build = append(cand.Build[:i], cand.Build[i+1:]...)
+			for j := range cand.Build {
+				if cand.Build[j].Op == "designate" && cand.Build[j].Src > i {
+					cand.Build[j].Src--
+				}
+			}
+			for k := range cand.Calls {
+				ixs := []int{}
+				for _, ix := range cand.Calls[k].Ixs {
+					switch {
+					case ix < i:
+						ixs = append(ixs, ix)
+					case ix > i:
+						ixs = append(ixs, ix-1)
+					}
+				}
+				cand.Calls[k].Ixs = ixs
+			}
+			c16SyncStore(cand)
+			if try(cand) {
+				progress = true
+			}
+		}
 		// drop an option
-		for i := 0; i < len(cur.Store); i++ {
+		for i := 0; i < len(cur.Store) && len(cur.Build) == 0; i++ {
 			cand := c16Clone(cur)
 			cand.Store = append(cand.Store[:i], cand.Store[i+1:]...)
 			for k := range cand.Calls {
@@ -509,6 +658,9 @@ func c16Shrink(ctx *vh.Ctx, c *c16Case, sig string) *c16Case {
 		}
 		// drop a path / surplus values
 		for i := range cur.Store {
+			if len(cur.Build) > 0 {
+				break
+			}
 			for j := 0; j < len(cur.Store[i].Paths); j++ {
 				cand := c16Clone(cur)
 				cand.Store[i].Paths = append(cand.Store[i].Paths[:j], cand.Store[i].Paths[j+1:]...)
